@@ -163,6 +163,25 @@ Fixpoint repl_aux (uri repl : str) (skip nd : nat) (s : str) : str :=
   end.
 Definition replace_unescaped (input uri repl : str) : str := repl_aux uri repl 0 0 input.
 
+(* the second result of replaceUnescaped: the number of occurrences it replaced (same scan) *)
+Fixpoint cnt_aux (uri : str) (skip nd : nat) (s : str) : nat :=
+  match s with
+  | [] => 0
+  | c :: s' =>
+      let nd' := if is_dollar c then S nd else 0 in
+      match skip with
+      | S k => cnt_aux uri k nd' s'
+      | 0 =>
+          if prefix uri s
+          then (if Nat.odd nd then 0 else 1) + cnt_aux uri (length uri - 1) nd' s'
+          else cnt_aux uri 0 nd' s'
+      end
+  end.
+Definition count_unescaped (input uri : str) : nat := cnt_aux uri 0 0 input.
+
+(* const maxExpansions = 10_000 *)
+Definition max_expansions : nat := 10 * 1000.
+
 Section Expand.
   (* Resolver.defaultScheme ("" = none) and the providers: scheme -> opaque value -> result
      (unregistered scheme = Err [ENoScheme], provider failure = Err [EProvider]) *)
@@ -293,18 +312,65 @@ Section Expand.
     | _ => Ok (v, false)
     end.
 
-  (* expandValueRecursively: at most [fuel] = 1000 rounds *)
-  Fixpoint expand_rec (fuel : nat) (v : cv) : res cv :=
+  (* what one call of findAndExpandURI adds to Resolver.expansions (nothing when it fails): a whole-value
+     reference 1, an embedded one the number of occurrences replaced *)
+  Definition spent_string (s : str) : nat :=
+    match expand_string s with
+    | Err _ => 0
+    | Ok _ =>
+        if negb (contains [cDollar; cOpen] s) || negb (has_char cClose s) then 0
+        else match find_uri s with
+             | None => 0
+             | Some uri => if str_eqb uri s then 1 else count_unescaped s uri
+             end
+    end.
+
+  (* what one call of expandValue adds to Resolver.expansions (same control flow as expand_value) *)
+  Fixpoint spent (v : cv) : nat :=
+    match v with
+    | CStr s => spent_string s
+    | CList l => list_sum (map spent l)
+    | CMap m => list_sum (map (fun kv => spent (snd kv)) m)
+    | CExp x o =>
+        spent x +
+        match expand_value x with
+        | Ok (CStr _, _) | Ok (CExp _ _, _) | Err _ => 0
+        | Ok _ => spent_string o
+        end
+    | _ => 0
+    end.
+
+  (* expandValueRecursively (after fix 536781a48): loop until a round reports "unchanged"; give up with
+     errTooManyRecursiveExpansions once more than maxExpansions reference occurrences were expanded for this
+     value.  [used] = Resolver.expansions.  [fuel] only makes the definition structural: every round that
+     changes the value expands at least one occurrence, so fuel S (S max_expansions) is never exhausted first. *)
+  Fixpoint expand_rec (fuel used : nat) (v : cv) : res cv :=
     match fuel with
     | 0 => Err [ETooMany]
     | S f =>
         match expand_value v with
         | Err e => Err e
-        | Ok (v', changed) => if changed then expand_rec f v' else Ok v'
+        | Ok (v', changed) =>
+            if changed then
+              let used' := used + spent v in
+              if max_expansions <? used' then Err [ETooMany] else expand_rec f used' v'
+            else Ok v'
         end
     end.
+  Definition rec_fuel : nat := S (S max_expansions).
 
-  Definition max_rounds : nat := 1000.
+  (* PRE-REPAIR (documentation, and the plain "iterate expandValue at most [fuel] times" used by the structural
+     theorems of Proofs8): expandValueRecursively with its former bound of 1000 rounds *)
+  Fixpoint expand_rec_old (fuel : nat) (v : cv) : res cv :=
+    match fuel with
+    | 0 => Err [ETooMany]
+    | S f =>
+        match expand_value v with
+        | Err e => Err e
+        | Ok (v', changed) => if changed then expand_rec_old f v' else Ok v'
+        end
+    end.
+  Definition max_rounds_old : nat := 1000.
 End Expand.
 
 (* resolver.go escapeDollarSigns *)
@@ -380,7 +446,7 @@ Section Resolve.
   Variable retrieve : str -> str -> res retrieved.
 
   Definition resolve_leaf (v : cv) : res cv :=
-    match expand_rec def retrieve max_rounds v with
+    match expand_rec def retrieve rec_fuel 0 v with
     | Err e => Err e
     | Ok v' => Ok (escape_dollars v')
     end.
